@@ -173,14 +173,22 @@ func dir(x, y, ex, ey int) tak.MoveType {
 }
 
 func adjacent(p *tak.Position, x, y int) (int, int) {
+	return adjacentExcept(p, x, y, -1, -1)
+}
+
+// adjacentExcept is adjacent, but never answers the square (ax, ay).
+func adjacentExcept(p *tak.Position, x, y, ax, ay int) (int, int) {
+	free := func(x, y int) bool {
+		return p.Top(x, y) == 0 && !(x == ax && y == ay)
+	}
 	switch {
-	case x > 0 && p.Top(x-1, y) == 0:
+	case x > 0 && free(x-1, y):
 		return x - 1, y
-	case y > 0 && p.Top(x, y-1) == 0:
+	case y > 0 && free(x, y-1):
 		return x, y - 1
-	case x+1 < p.Size() && p.Top(x+1, y) == 0:
+	case x+1 < p.Size() && free(x+1, y):
 		return x + 1, y
-	case y+1 < p.Size() && p.Top(x, y+1) == 0:
+	case y+1 < p.Size() && free(x, y+1):
 		return x, y + 1
 	}
 	panic("no empty adjacency")
@@ -202,9 +210,11 @@ func (d *DoubleStack) GetMove(p *tak.Position) (tak.Move, bool) {
 		}
 		return m, true
 	case 3:
-		// Black places adjacent to their first piece
+		// Black places adjacent to their first piece, but not
+		// on the square white has to move back to
 		x, y := int(d.blackPlace.X), int(d.blackPlace.Y)
-		ex, ey := adjacent(p, x, y)
+		ex, ey := adjacentExcept(p, x, y,
+			int(d.whitePlace.X), int(d.whitePlace.Y))
 		m := tak.Move{
 			X:    int8(ex),
 			Y:    int8(ey),
